@@ -26,6 +26,7 @@ def floatMath : MathFns Float where
   exp := Float.exp
   log := Float.log
   pow := Float.pow
+  mod := fun x y => x - y * (Float.ofInt (x / y).toInt64.toInt)   -- Go math.Mod: result has the sign of x (C fmod) for the magnitudes the kernels use
   sqrt := Float.sqrt
   sin := Float.sin
   cos := Float.cos
